@@ -158,7 +158,9 @@ def exec_scripted_shards(binary, wd, seed, shards, n):
 
 def admitted_sets():
     """model-admitted outcomes per (class, ctx) from `npdriver dialadmit`"""
-    classes = ['accept', 'refuse', 'backlog', 'reset', 'unix-ok', 'unix-missing', 'unix-refuse', 'unix-backlog']
+    classes = ['accept', 'refuse', 'backlog', 'reset', 'unix-ok', 'unix-missing', 'unix-refuse', 'unix-backlog',
+               # dials with a local address (DialTCP / DialUnix): what is wrong is found before connect(2)
+               'laddr-ok', 'bind-inuse', 'bind-notlocal', 'family-raddr', 'family-laddr', 'unix-laddr-ok', 'unix-bind-exists']
     req = ''.join('class %s ctx=%s\n' % (c, x) for c in classes for x in ('-', 'D', 'C'))
     p = subprocess.run([common.DRIVER, 'dialadmit'], input=req, stdout=subprocess.PIPE, text=True, timeout=300, check=True)
     out = {}
@@ -226,7 +228,7 @@ def analyse_real(path, spec_lines, admit, slack_us):
         # the model admits the outcome of this class
         if d['net'] == 'host':
             continue   # several resolved addresses: judged by the oracle only
-        ctx = 'D' if (api == 'dial' and tmo > 0 and d['net'] != 'unix') else ('C' if api == 'ctx' else '-')
+        ctx = 'D' if (api in ('dial', 'laddr') and tmo > 0 and d['net'] != 'unix') else ('C' if api == 'ctx' else '-')
         adm = admit.get((cls, ctx))
         if adm is not None and outcome not in adm:
             res['problems'].append(('model-does-not-admit', 'class %s ctx=%s: observed "%s", model admits %s: %s' % (cls, ctx, outcome, sorted(adm), l), [req]))
